@@ -14,7 +14,8 @@ META = {
                                'c03-be-2d', 'c03-be-scalar', 'c03-le-2d', 'c03-special', 'c03-rand', 'c03-cast',
                                'c03-src-inline', 'c03-src-dict', 'c03-src-struct', 'c03-src-hdf5', 'c03-struct-fastpath',
                                'c03-struct-permuted', 'c03-struct-aligned', 'c03-struct-view', 'c03-struct-packed', 'c03-cast-history',
-                               'c03-cast-declared-equal-to-derived', 'c03-many-rows']
+                               'c03-cast-declared-equal-to-derived', 'c03-many-rows', 'c03-int-cast-out-of-range',
+                               'c03-int-cast-hdf5', 'c03-int-cast-dict']
                      + ['c03-dtype-' + d for d in gen.DTYPES]},
     'exhaustive_windows': {
         'quick': ['8 dtypes x byte order {<,>} x shape {(N,),(N,1),(N,3)} x layout {C,F,strided,view,readonly} x fill special (N=5, inline)'],
@@ -46,6 +47,9 @@ def cases(tier, seed):
         yield {'stratum': 'random-cast', 'index': k, 'kind': 'random-cast'}
     for k in range(120 if tier == 'quick' else 3000):
         yield {'stratum': 'struct-fastpath', 'index': k, 'kind': 'fastpath'}
+    # integer -> integer casts of values outside the target's range, every kind of source
+    for k in range(80 if tier == 'quick' else 2000):
+        yield {'stratum': 'int-cast-out-of-range', 'index': k, 'kind': 'int-cast'}
     # many rows: frame numbers cross the UVARI widths (127/128, 16383/16384)
     for k, n in enumerate([126, 127, 128, 129, 300] if tier == 'quick' else [126, 127, 128, 129, 300, 16383, 16384, 16385, 20000]):
         yield {'stratum': 'many-rows', 'index': k, 'kind': 'many-rows', 'rows': n}
@@ -182,6 +186,10 @@ def run_case(case):
             if sp['write'].get('perm_seed') is not None:
                 bump('c03-struct-permuted')
             bump('c03-struct-' + (sp['write'].get('struct_variant') or 'packed'))
+        elif case['kind'] == 'int-cast':
+            sp = gen.int_cast_spec(r, nframes=1)
+            bump('c03-int-cast-out-of-range')
+            bump('c03-int-cast-' + sp['write']['source'])
         else:
             sp = gen.frame_spec(r, casts=(case['kind'] == 'random-cast'), nframes=r.choice([1, 1, 2]))
         go(sp)
